@@ -270,6 +270,21 @@ fn check(c: &Case, obs: &mut Obs) -> Verdict {
     let mut faulted = c.doc.clone();
     faulted.mappings_override = Some(text.clone());
     let doc = faulted.to_json();
+    // with a (short) range bit field next to it the faulted mappings are refused all the same
+    if let Some(rest) = doc.trim_start().strip_prefix('{') {
+        if c.doc.style.header.is_none() && !doc.contains("rangeMappings") {
+            let with_ranges = format!("{{\"rangeMappings\":\"B;B;;B\",{rest}");
+            match guard(|| decode_slice(with_ranges.as_bytes())) {
+                Ok(Err(_)) => {}
+                Ok(Ok(_)) => {
+                    return Verdict::Fail(format!(
+                        "mappings {text:?} decoded successfully although it is malformed ({why:?}; faults {labels:?}) once a 'rangeMappings' key is present: doc={with_ranges}"
+                    ))
+                }
+                Err(p) => return Verdict::Fail(format!("decode_slice (with rangeMappings): {p}; doc={with_ranges}")),
+            }
+        }
+    }
     match guard(|| decode_slice(doc.as_bytes())) {
         Ok(Err(_)) => {}
         Ok(Ok(m)) => {
